@@ -74,6 +74,13 @@ def gen_case(rng, nmax=40, estimators=ESTIMATORS, binnings=BINNINGS, allow_spars
             form = 'none'
     if want_sparse:
         form = str(rng.choice(['abs_below', 'abs_below', 'abs_at', 'abs_above']))
+    if form in ('median', 'mean', 'ratio', 'none') and dmax > 0 and rng.random() < 0.3:
+        # normalised coordinates (unit square and smaller): the median / mean distance a string maxlag resolves to is
+        # below 1 - it is a distance all the same, not a ratio
+        coords = coords * (float(rng.uniform(0.2, 1.4)) / dmax)
+        kind = 'scaled'
+        d = brute_dists(coords, metric)
+        dmax = float(d.max())
     uniq = np.unique(d[d > 0])
     if form == 'none':
         maxlag = None
